@@ -15,6 +15,7 @@ op lines
   clustername <hex> / usize <hex> / atoi <hex> / utf8 <hex>
   setrepl <arg>… / setmeta <arg>…   `ReplicatorMeta::from_resp` / `ProxyClusterMeta::from_resp` on `UMCTL SETREPL|SETCLUSTER <args>`
                              (arg = hex, `~` = nil bulk) → done big=<0|1> | PANIC   (big: more than 64·bytes + 4096 requested)
+  command <hex>              first packet through `RespCodec::decode` + `Command::new` → <CmdType> <DataCmdType> slot=<n|-> | none | PANIC
   hashtag <hex>              `get_hash_tag` / `generate_slot` / `generate_lock_slot` → tag=<hex> slot=<n> lock=<n> | PANIC
   cfgset <field> <value>     `ServerProxyConfig::set_value` then three `SlowRequestLogger::limit_rate` calls → set=<ok|err|nonutf8> limiter=<ok|PANIC>
   cfgconn <field> <value>    `CONFIG SET` on a fresh `server_proxy`, then ordinary commands on the same, on an established and on a
@@ -201,6 +202,21 @@ def step (st : St) (toks : List String) : St × String :=
     -- without panicking and without requesting memory beyond a constant multiple of the arguments
     -- (`umctlCountPrealloc = false`, theorem `C16_umctl_counts`)
     (st, if Um.Gen.Hostile.umctlCountPrealloc then "done big=?" else "done big=0")
+  | ["command", h] =>
+    match bytesOfHex h with
+    | some b =>
+      match (decodeC (Cfg.cur st.es) b).1 with
+      | .item v n =>
+        let cmd := cmdOf (b.take n) v
+        if commandNewPanics Um.Gen.Hostile.hashTagEndAfterBegin cmd then (st, "PANIC")
+        else
+          let slot := match cmd.bind routingKey with
+            | some k => toString (Um.Crc16.slotOf k)
+            | none => "-"
+          (st, s!"{cmdTypeOf cmd} {dataCmdTypeOf cmd} slot={slot}")
+      | .panic => (st, "PANIC")
+      | _ => (st, "none")
+    | none => (st, "bad-op")
   | ["hashtag", h] =>
     match bytesOfHex h with
     | some k =>
@@ -230,12 +246,25 @@ def step (st : St) (toks : List String) : St × String :=
       | _ => (st, s!"ok contains={r.contains}")
     | none => (st, "bad-op")
   | "setcluster" :: form :: rest =>
-    match rest.mapM rangeOf with
+    -- optional third token: where the range list goes (`tag` = a MIGRATING range of a local node, the default;
+    -- `local` = untagged ranges of a local node; `peer` = ranges of a peer)
+    let (place, toksR) := match rest with
+      | "tag" :: r => ("tag", r)
+      | "local" :: r => ("local", r)
+      | "peer" :: r => ("peer", r)
+      | r => ("tag", r)
+    match toksR.mapM rangeOf with
     | some rs =>
-      let r := rangeMapCur (rangesSeen Um.Gen.Hostile.compressedCompact (form == "t") rs)
-      match r.out with
-      | .panic _ => (st, "closed")
-      | _ => (st, if r.steps > st.spin then "stalled" else "ok")
+      let seen := rangesSeen Um.Gen.Hostile.compressedCompact (form == "t") rs
+      let legacy := rest.head? != some place
+      let fin (x : String) := if legacy then x else x ++ " second=ok"
+      if place == "tag" then
+        let r := rangeMapCur seen
+        match r.out with
+        | .panic _ => (st, fin "closed")
+        | _ => (st, if r.steps > st.spin then "stalled" else fin "ok")
+      else
+        (st, if slotMapSteps Um.Gen.Hostile.slotMapBounded seen > st.spin then "stalled" else fin "ok")
     | none => (st, "bad-op")
   | _ => (st, "bad-op")
 
